@@ -98,6 +98,92 @@ class OraclesMixin:
         return "?"
 
     # ------------------------------------------------------------------------------
+    # O10.3 isolation equivalence: the dependency cone of a table, re-instantiated alone in a
+    # fresh world, exports the same frame as the table does in the shared world
+    # ------------------------------------------------------------------------------
+    @staticmethod
+    def step_inputs(st) -> set:
+        ids = set()
+
+        def add(x):
+            if isinstance(x, str) and len(x) > 1 and x[0] in "trepz" and x[1].isdigit():
+                ids.add(int(x[1:].split(".")[0].split("_")[0]))
+
+        def walk(x, key=None):
+            if isinstance(x, dict):
+                for k, v in x.items():
+                    if k in ("t", "l", "new", "src", "via", "x", "p", "z", "other", "ref"):
+                        add(v)
+                    elif k == "r":
+                        add(v)
+                    walk(v, k)
+            elif isinstance(x, list):
+                for v in x:
+                    walk(v)
+
+        walk(st)
+        ids.discard(st.get("i"))
+        return ids
+
+    def cone(self, tid: str) -> list:
+        by_i = {st["i"]: st for st in self.steps}
+        need = {int(tid[1:])}
+        stack = [int(tid[1:])]
+        while stack:
+            i = stack.pop()
+            st = by_i.get(i)
+            if st is None:
+                continue
+            for j in self.step_inputs(st):
+                if j not in need:
+                    need.add(j)
+                    stack.append(j)
+        return [st for st in self.steps if st["i"] in need and st["op"] not in ("reject", "observe", "collect_lazy", "gc", "arm_engine", "uuid_regime")]
+
+    def isolation_oracle(self):
+        from sim.hist import HistMachine, public_steps
+        from sim.profiles import PROFILES
+
+        live = [t for t in self.tables if self.tables[t].first_digest]
+        if not live:
+            return
+        k = self.profile.get("isolation_checks", 3)
+        picks = live[-k:] if len(live) <= k else self.rng_stable_sample(live, k, "iso")
+        for tid in picks:
+            pt = self.tables[tid]
+            steps = public_steps(self.cone(tid))
+            for st in steps:
+                st.pop("interrupt_at", None)
+            cfg = dict(self.cfg)
+            cfg.update(profile=PROFILES["none"], profile_name="none", digest_only=True, sessions=1, uuid_regime="counter", population="clean")
+            inner = HistMachine(cfg)
+            try:
+                inner.replay(steps)
+            finally:
+                inner.close()
+                self.clock.install()
+            ipt = inner.tables.get(tid)
+            self.stats["isolation_replays"] += 1
+            if ipt is None:
+                self.stats["isolation_cone_failed"] += 1
+                continue
+            for rep in sorted(pt.real):
+                now = self.observe(pt, rep, [])
+                if now[0] != "ok" or rep not in ipt.first_digest:
+                    continue
+                d = sha((now[1], canon_rows(now[2], pt.m.order_fixed)))
+                self.stats["isolation_compared"] += 1
+                if d != ipt.first_digest[rep]:
+                    self.violate(
+                        "C10",
+                        "O10.3",
+                        f"table {tid} exports differently in the shared world than its own recipe does in a fresh world ({rep}); cone of {len(steps)} steps",
+                        rep=rep,
+                        tail="/".join(pt.m.verbs[-3:]),
+                        cone_uses_pool=any(self.step_uses_pooled_expr(st) or st["op"] == "apply_pipe" for st in steps),
+                    )
+
+    # ------------------------------------------------------------------------------
     # after a table was produced
     # ------------------------------------------------------------------------------
     def primary_family(self):
@@ -143,7 +229,7 @@ class OraclesMixin:
 
         # ---- data -----------------------------------------------------------------
         digest = None
-        want_data = bool(self.fam & {"O6", "O8", "O9", "O10", "O14", "O16"})
+        want_data = bool(self.fam & {"O6", "O8", "O9", "O10", "O14", "O16"}) or self.cfg.get("digest_only")
         if want_data:
             digest = self.data_oracle(pt, step, inputs)
         elif "O11" in self.fam:
@@ -344,7 +430,7 @@ class OraclesMixin:
         m = pt.m
         op = step["op"]
         fam = self.primary_family()
-        prop = FAM_PROP[fam]
+        prop = FAM_PROP.get(fam)
         probes = self.refs_in_scope(m, limit=self.profile.get("max_probes", 8)) if self.fam & {"O6", "O9", "O16", "O10"} else []
         obs = {}
         for rep in sorted(pt.real):
@@ -364,6 +450,8 @@ class OraclesMixin:
                 res0 = self.observe(pt, rep, [])
                 which = "export" if res0[0] != "ok" else "probe"
                 self.incident(step, rep, cls, res[2], which)
+                if fam is None:
+                    continue
                 tail = "/".join(m.verbs[-3:])
                 if "O8" in self.fam and rep == "sqlite":
                     self.violate("C08", "O8.5", f"accepted pipeline fails at {which} on sqlite with {cls}: {str(res[2])[:160]}", cls=cls, op=op, which=which, tail=tail)
@@ -406,7 +494,7 @@ class OraclesMixin:
             kind = "names" if cp[0] != cs[0] else "nrows" if len(cp[1]) != len(cs[1]) else "values"
             # rows are compared across back ends only where the property says so (C08: an accepted
             # SQL pipeline equals the Polars result); elsewhere each replica is judged on its own
-            if kind == "names" or "O8" in self.fam:
+            if fam is not None and (kind == "names" or "O8" in self.fam):
                 orc = {"O8": "O8.1", "O6": "O6.xrep", "O9": "O9.4", "O16": "O16.xrep", "O10": "O10.xrep", "O14": "O14.2x"}[fam]
                 self.violate(
                     prop,
